@@ -226,6 +226,18 @@ let strlib_case id fname (fields : string list) =
     | _ -> ("bad-case", "bad-case")) in
   Printf.printf "strlib %s %s\ngospec %s %s\n" id l id g
 
+(* ---- C10: the reference semantics of a program and of its renaming ---- *)
+let ren_case id main filesa stddir filesb =
+  let run files = (match FrontModel.parse_main (env_of files stddir) (bytes_of_hex main) with
+      | FrontModel.POk (body, _, _, _) ->
+          (match Src.run run_fuel [] [] body with
+           | Src.Ran (out, status, _) -> Some (hex_of_bytes out ^ "/" ^ z_to_string status)
+           | _ -> None)
+      | _ -> None) in
+  match run filesa, run filesb with
+  | Some a, Some b -> Printf.printf "ren %s spec=%s\n" id (if a = b then "same" else "differ")
+  | _, _ -> Printf.printf "ren %s spec=undefined\n" id
+
 (* ---- C08: the model of double-quoted text ---- *)
 let dq_case id env word =
   let e = Stdlib.List.map (fun p -> match Stdlib.String.split_on_char '.' p with
@@ -311,6 +323,7 @@ let () =
       | ["emit"; id; main; files; stddir] -> emit_case id main files stddir
       | ["run"; id; main; files; stddir] -> run_case id main files stddir
       | "strlib" :: id :: fname :: fields -> strlib_case id fname fields
+      | ["ren"; id; main; filesa; stddir; filesb] -> ren_case id main filesa stddir filesb
       | ["dq"; id; env; word] -> dq_case id env word
       | "fsh" :: id :: _ :: _ :: _ :: _ :: prefiles :: ops :: _ -> fsh_case id prefiles ops
       | "argv" :: id :: main :: files :: stddir :: stdin :: _ -> argv_case id main files stddir stdin
